@@ -67,7 +67,7 @@ class Fixture:
         self.widgets = widgets
 
 
-def fx1():
+def fx1(pre=None):
     t = urwid.Text("hello")
     e = urwid.Edit("c:", "ab")
     cb = urwid.CheckBox("x")
@@ -106,13 +106,18 @@ def fx1():
 
     def describe():
         return (t.text, t.align, t.wrap, hdr.text, repr(am.attr_map), repr(am.focus_map), cb.state, e.edit_text, e.edit_pos, e.caption, zz.text,
-                tuple(id_of(w) for w in walker), lb.focus_position if len(walker) else None, lb.offset_rows, lb.inset_fraction, fr.focus_part, cols.focus_position)
+                tuple(id_of(w) for w in walker), lb.focus_position if len(walker) else None, lb.offset_rows, lb.inset_fraction, fr.focus_part, cols.focus_position,
+                repr(lb.set_focus_pending), repr(lb.set_focus_valign_pending))
 
     widgets = [fr, lb, am, hdr, t, e, cols, cb, zz]
 
     def id_of(w):
         return widgets.index(w) if w in widgets else type(w).__name__
 
+    if pre == "tall-last":
+        # the last item is taller than the view and in focus with only its first row showing: 'end' changes the alignment, not the focus position
+        walker.append(urwid.Text("T0\nT1\nT2\nT3\nT4"))
+        lb.set_focus(len(walker) - 1, "above")
     return Fixture(fr, [((8, 4), True), ((8, 4), False), ((10, 3), True)], ops, describe, widgets)
 
 
@@ -337,7 +342,7 @@ def fx8():
     return Fixture(top, [((12, 5), True), ((12, 5), False), ((8, 4), True)], ops, describe, widgets)
 
 
-FIXTURES = [("frame-icons", fx7), ("shared-children", fx8), ("frame-listbox", fx1), ("filler-pile", fx2), ("overlay", fx3), ("scrollbar", fx4), ("padding", fx5), ("twice-uncached", fx6)]
+FIXTURES = [("frame-icons", fx7), ("shared-children", fx8), ("frame-listbox-tall", lambda: fx1("tall-last")), ("frame-listbox", fx1), ("filler-pile", fx2), ("overlay", fx3), ("scrollbar", fx4), ("padding", fx5), ("twice-uncached", fx6)]
 
 
 def snapshot(c):
